@@ -333,7 +333,115 @@ def rule_multipliers_reduced(ctx: Ctx, rep: Report) -> None:
     rep.floor(rule, 2)
 
 
+def rule_values_by_value_(ctx: Ctx, rep: Report) -> None:
+    """C02.values_by_value: the curve a key is read on, the curve its version names,
+    the curve the caller passed: compared by value (sigcommon.values_by_value),
+    so a caller's own `Curve(...)` of secp256k1's parameters signs and
+    verifies like the library's constant."""
+    from rules import sigcommon
+    sigcommon.rule_values_by_value(ctx, rep, "C02.values_by_value", ("btclib.",))
+
+
+def rule_digest_length_enforced(ctx: Ctx, rep: Report) -> None:
+    """C02.digest_length_enforced: ECDSA's `_` functions take the *digest* of the
+    message, and a digest has the hash function's length: every
+    `bytes_from_octets(msg_hash...)` in dsa.py and rfc6979_nonce.py passes the
+    size it must have and uses the answer whole (no slice that would make 40
+    octets read as their first 32 -- two messages, one signature), and
+    `challenge_`, which every signer and verifier goes through, has one."""
+    rule = "C02.digest_length_enforced"
+    n = 0
+    seen_challenge = False
+    for q, fi in sorted(ctx.prog.functions.items()):
+        if not (q.startswith("btclib.ecc.dsa.") or q.startswith("btclib.ecc.rfc6979_nonce.")):
+            continue
+        for c in own_nodes(fi.node):
+            if not (isinstance(c, ast.Call) and call_name(c) == "bytes_from_octets" and c.args and isinstance(c.args[0], ast.Name) and c.args[0].id.startswith("msg_hash")):
+                continue
+            n += 1
+            sized = len(c.args) >= 2 or any(k.arg in ("out_size", "size") for k in c.keywords)
+            sliced = isinstance(parent(c), ast.Subscript) and isinstance(parent(c).slice, ast.Slice) and (parent(c).slice.lower is not None or parent(c).slice.upper is not None)
+            ok = sized and not sliced
+            if q == "btclib.ecc.rfc6979_nonce.challenge_" and ok:
+                seen_challenge = True
+            rep.ob(rule, f"{q}:{c.args[0].id}", ok, fi.where(c), "admitted at the digest's length" if ok else
+                   f"`{norm(parent(c) if sliced else c)}` does not hold the digest to its length: a longer value is read as its head, so two different inputs sign and verify as one")
+    fi = ctx.func("btclib.ecc.rfc6979_nonce.challenge_")
+    rep.ob(rule, "challenge_:admits", seen_challenge, fi.where(), "challenge_ admits the digest at its length" if seen_challenge else
+           "challenge_ no longer refuses a msg_hash that is not hf's digest size")
+    rep.floor(rule, 6)
+
+
+def rule_grind_test_is_der_pad(ctx: Ctx, rep: Report) -> None:
+    """C02.grind_test_is_der_pad: grinding re-signs exactly when r costs a DER pad
+    byte -- when it does not fit the order's octets as a signed integer,
+    `r.bit_length() >= 8 * n_size` -- so that where no r can cost one (an
+    order of 521 bits in 66 octets) the default signature *is* RFC6979's. The
+    loop test of `_grind_low_r` is folded, helpers inlined, on orders of
+    256/32, 521/66, 112/14 and 7/1 bits/octets and r at the edges of each."""
+    import copy
+    from sa.consts import Unknown
+    rule = "C02.grind_test_is_der_pad"
+    fi = ctx.func("btclib.ecc.dsa._grind_low_r")
+    loops = [w for w in own_nodes(fi.node) if isinstance(w, ast.While)]
+    if len(loops) != 1:
+        rep.unknown(rule, "_grind_low_r", fi.where(), f"{len(loops)} while loops")
+        return
+    local = {a.targets[0].id: a.value for a in own_nodes(fi.node) if isinstance(a, ast.Assign) and len(a.targets) == 1 and isinstance(a.targets[0], ast.Name) and a.targets[0].id not in ("sig", "counter")}
+
+    def subst(e: ast.AST, env: dict[str, ast.AST], owner, depth: int = 0) -> ast.AST:
+        class T(ast.NodeTransformer):
+            def visit_Name(self, n):
+                if isinstance(n.ctx, ast.Load) and n.id in env:
+                    return copy.deepcopy(env[n.id])
+                return n
+
+            def visit_Call(self, n):
+                n = self.generic_visit(n)
+                tgt = ctx.resolve_call(owner, n)
+                callee = ctx.prog.functions.get(tgt) if tgt else None
+                if callee is not None and depth < 3 and not n.keywords:
+                    body = [s for s in callee.node.body if not (isinstance(s, ast.Expr) and isinstance(s.value, ast.Constant))]
+                    if len(body) == 1 and isinstance(body[0], ast.Return) and body[0].value is not None:
+                        ps = [a.arg for a in callee.node.args.args]
+                        if len(ps) == len(n.args):
+                            return subst(copy.deepcopy(body[0].value), dict(zip(ps, n.args)), callee, depth + 1)
+                return n
+        return T().visit(e)
+
+    class Attr(ast.NodeTransformer):
+        def visit_Attribute(self, n):
+            n = self.generic_visit(n)
+            if n.attr == "r":
+                return ast.Name(id="__r", ctx=ast.Load())
+            if n.attr in ("nlen", "n_size") and isinstance(n.value, ast.Name):
+                return ast.Name(id="__" + n.attr, ctx=ast.Load())
+            return n
+
+    test = Attr().visit(subst(copy.deepcopy(loops[0].test), local, fi))
+    for nlen, n_size in ((256, 32), (521, 66), (112, 14), (7, 1)):
+        for r in sorted({1, (1 << (nlen - 1)) - 1, 1 << (nlen - 1), (1 << nlen) - 1, (1 << (8 * n_size - 1)) - 1} | ({1 << (8 * n_size - 1)} if 8 * n_size == nlen else set())):
+            if r.bit_length() > nlen:
+                continue
+            try:
+                got = bool(ctx.fold(test, fi.module, {"__r": r, "__nlen": nlen, "__n_size": n_size}))
+            except Unknown as e:
+                rep.unknown(rule, f"n:{nlen}/{n_size}", fi.where(loops[0]), f"loop test not folded: {e}")
+                return
+            want = r.bit_length() >= 8 * n_size
+            rep.ob(rule, f"n:{nlen}bits/{n_size}octets,r:{r.bit_length()}bits", got == want, fi.where(loops[0]),
+                   "re-signs exactly when r costs the pad" if got == want else
+                   f"`while {norm(loops[0].test)}` {'re-signs' if got else 'keeps'} an r of {r.bit_length()} bits on an order of {nlen} bits in {n_size} octets, where DER {'needs no' if got else 'needs a'} pad byte: the default signature is no longer the one RFC6979 and Core produce")
+    rep.floor(rule, 12)
+
+
 RULES = [
+    ("C02.grind_test_is_der_pad", rule_grind_test_is_der_pad),
+
+    ("C02.digest_length_enforced", rule_digest_length_enforced),
+
+    ("C02.values_by_value", rule_values_by_value_),
+
     ("C02.multipliers_reduced", rule_multipliers_reduced),
     ("C02.config_not_replaced", rule_config_not_replaced_),
     ("C02.hash_params", rule_hash_params_),
